@@ -86,7 +86,14 @@ func zzH_C16_tmux() {
 		stream = append(stream, '\r', '\n')
 	}
 	stream = append(stream, '\n')
-	t.buffer.addBuffer(stream)
+	cut := len(stream)
+	if verifBound("CUT") != 0 {
+		cut = verifNondetRange(1, len(stream)) // the decorated line arrives in one or two reads, cut anywhere
+	}
+	t.buffer.addBuffer(stream[:cut])
+	if cut < len(stream) {
+		t.buffer.addBuffer(stream[cut:])
+	}
 	verifExpectBlock(1)
 	line, err := t.recvLine("S", false, nil)
 	verifExpectBlock(0)
